@@ -56,6 +56,11 @@ CLAIMED = {
   text="Decides the complete lexical confinement argument on every path of the current source: every path argument of every os/ioutil/filepath.Walk call derives only from localPath's result where its error is nil (through phis, captured variables, helper parameters over all call sites, Walk callbacks); such calls occur only in LocalFileSystem methods and their private helpers; localPath succeeds exactly for NUL-free names whose path.Clean form is absolute and returns Join(root, FromSlash(Clean(name))), 4xx otherwise (per GOOS); every reported path is the request name or \"/\"+ToSlash(Rel(root, walk path)). Anchored at the sinks, so it covers the request path and Destination alike. Behaviour with symbolic links and URL escaping of reported paths are not decided.",
   note="Trusted: go/ssa; path.Clean removes every '..' of a rooted path; filepath.Join/FromSlash are lexical; no symlink below the root points outside.",
   ref="DESIGN.md §3 C03"),
+ "C15": dict(
+  technique="static analysis: decision-table extraction by abstract interpretation of go/ssa over token-kind sequences",
+  text="Thin by design and said so: decides that the capture/replay code handles every token kind, in order, with matching ends — the decision table of UnmarshalXML over every token sequence within the bound equals a reference parser (recursive capture, one CopyToken child per other token, stale receiver state discarded, read errors returned), MarshalXML and the TokenReader replay start, children in order and End() of the same start for every small tree, Token always makes progress and EOF is sticky, and Decode reads from the value's own reader. The namespace behaviour the statement is mostly about lives in encoding/xml's encoder and is NOT decided.",
+  note="Trusted: go/ssa; the model of xml.Decoder.Token as an arbitrary token sequence and of xml.CopyToken as a same-kind copy. Bounded token count / tree size.",
+  ref="DESIGN.md §3 C15"),
 }
 
 def main():
